@@ -46,11 +46,31 @@ def _mid_fields(js: ast.AST):
     return out
 
 
+def _origin_vars(fn: ast.FunctionDef, msg: str) -> set:
+    """Locals of _receive_message that hold the request's Origin-Host (possibly None)."""
+    out = set()
+    for n in A.walk_no_nested(fn):
+        if isinstance(n, ast.Assign) and len(n.targets) == 1 and isinstance(n.targets[0], ast.Name):
+            t = ast.unparse(n.value).replace('"', "'")
+            if t in (f"{msg}.origin_host", f"getattr({msg}, 'origin_host', None)"):
+                out.add(n.targets[0].id)
+    return out
+
+
+def _origin_present_subject(subject: str, msg: str, ovars: set) -> bool:
+    if subject == f"hasattr({msg}, 'origin_host')":
+        return True
+    if subject in ovars:
+        return True
+    return any(subject.replace(" ", "") == f"isinstance({v},bytes)" for v in ovars)
+
+
 def run(ctx: Ctx):
     model = ctx.model
     R = RecvModel(ctx)
     g, at, msg, conn = R.g, R.at, R.msg, R.conn
     nc = R.nc
+    ovars = _origin_vars(R.f.node, msg)
     UNABLE = R.code("E_RESULT_CODE_DIAMETER_UNABLE_TO_COMPLY")
 
     # ---------------- R1 rejection condition --------------------------------------
@@ -97,7 +117,8 @@ def run(ctx: Ctx):
                             f"{msg}.header.end_to_end_identifier",
                             f"hasattr({msg}, 'origin_host')", "self.validate_received_request_avps",
                             "failed_avp"}
-        extra = [f for f in facts if f[0] not in allowed_subjects]
+        extra = [f for f in facts if f[0] not in allowed_subjects
+                 and not _origin_present_subject(f[0], msg, ovars)]
         if extra:
             ctx.fail(cons + "#extra", g.loc(n), f"the duplicate rejection additionally requires "
                      f"{extra}: duplicates not satisfying it are delivered to the application again")
@@ -228,22 +249,48 @@ def run(ctx: Ctx):
         if isinstance(v, ast.Tuple) and v.elts:
             orig_key = _norm(v.elts[0], msg)
         facts = R.facts(s)
-        bad = [f for f in facts if f[0] not in (R.is_req, f"hasattr({msg}, 'origin_host')")]
+        bad = [f for f in facts if f[0] != R.is_req and not _origin_present_subject(f[0], msg, ovars)]
         if bad or (R.is_req, "truthy", None, False) in facts:
             ctx.fail(cons, g.loc(s), f"the origin of a request is only recorded under {bad or facts}")
         # before every send / dispatch
         for n in R.sends + [d for d, _, _ in R.dispatch]:
             if not g.dominated(n, [s]):
                 # allowed: paths on which the message has no origin host or is an answer
-                r = g.reach([g.entry], normal_blocked=[s], blocked_edges=g.guard_edges(
-                    lambda t: at.label_when(t, lambda a: False if a.subject in
-                                            (R.is_req, f"hasattr({msg}, 'origin_host')")
-                                            and a.op == "truthy" else None)))
+                def _no_origin(a):
+                    # truth value of the atom under which the message is an answer / has no origin
+                    if a.subject in (R.is_req, f"hasattr({msg}, 'origin_host')") and a.op == "truthy":
+                        return False
+                    if a.subject in ovars and a.op == "is" and a.value is None:
+                        return True
+                    if a.subject in ovars and a.op == "truthy":
+                        return False
+                    if any(a.subject.replace(" ", "") == f"isinstance({v},bytes)" for v in ovars):
+                        return False
+                    return None
+                from ..atoms import FlagTracker as _FT
+                r = g.reach([g.entry], normal_blocked=[s], tracker=_FT(at, set(ovars)) if ovars else None,
+                            blocked_edges=g.guard_edges(lambda t: at.label_when(t, _no_origin)))
                 if n in r:
                     ctx.fail(cons + "#order", g.loc(n), f"`{n.text(60)}` can run for a request with "
                              f"an Origin-Host before its origin is recorded: its answer is not "
                              f"entered into the window")
                     break
+        # the recorded origin is later used as a dictionary key (window per origin): it must
+        # be a bytes value - an untyped message exposes a repeated Origin-Host as a list
+        cons_h = "_receive_message:origin-is-bytes"
+        ctx.inst(cons_h)
+        ov = v.elts[0] if isinstance(v, ast.Tuple) and v.elts else None
+        from ..atoms import FlagTracker as _FT2, must_facts as _mf
+        fx = _mf(g, at, s, tracker=_FT2(at, set(ovars))) if ovars else facts
+        okh = ov is not None and any(
+            f_[0].replace(" ", "") == f"isinstance({ast.unparse(ov)},bytes)" and f_[1] == "truthy" and f_[3]
+            for f_ in fx)
+        if not okh:
+            ctx.fail(cons_h, g.loc(s), f"`{ast.unparse(ov) if ov is not None else '?'}` is recorded as the "
+                     f"request's origin without having been checked to be bytes: for a command without "
+                     f"python implementation a repeated Origin-Host AVP makes it a list, and "
+                     f"_record_answer (run after the answer is queued) raises TypeError when it uses "
+                     f"it as a dictionary key - the error handler then answers the request again")
         mid_var = ast.unparse([t for t in s.ast.targets][0].slice)
         mdef = [n for n in g.nodes if n.kind == "stmt" and any(
             isinstance(t, ast.Name) and t.id == mid_var for t in n.stores())]
